@@ -34,6 +34,10 @@ var c09Bad = []func(name string) string{
 	func(n string) string { return "  " + n + "-20%" },          // single token ending in a percent sign
 	func(n string) string { return "  " + n + " %s %d: 100%" },  // printf-looking text, percent value
 	func(n string) string { return "  " + n + `\n: 1\t2` },      // backslash sequences
+	func(n string) string { return "  " + n + ": 100\u00a0" },   // number followed by a no-break space
+	func(n string) string { return "  " + n + ": 1\u3000" },     // … by an ideographic space
+	func(n string) string { return "  " + n + ": 2.5\f" },       // … by a form feed
+	func(n string) string { return "  " + n + ":\u00a07" },      // no-break space instead of the blank before the value
 }
 
 // plant inserts k malformed lines below the first heading; returns the new text and the (1-based position, raw line) list in file order.
